@@ -123,15 +123,42 @@ template <> struct LK<char> {
     static char of(long long t) { return (char)t; }
     static std::string show(const char &v) { return std::to_string((int)(signed char)v); }
 };
+static inline std::string hexOf(const std::string &b) {
+    static const char *d = "0123456789abcdef";
+    std::string s;
+    for (unsigned char c : b) { s += d[c >> 4]; s += d[c & 15]; }
+    return s;
+}
 template <> struct LK<std::string> {
     static const bool labelled = true;
     static std::string name() { return "str"; }
     static std::string of(long long t) { return t == 0 ? std::string() : "s" + std::to_string(t); }
     static std::string show(const std::string &v) {
         if (v.empty()) return "0";
-        if (v[0] == 's') return v.substr(1);
-        return "?" + v;
+        if (v[0] == 's' && v.size() > 1 && v.size() < 9) {
+            long long k;
+            if (pl(v.substr(1), k) && k != 0 && k < 1000000 && k > -1000000 && of(k) == v) return std::to_string(k);
+        }
+        return "?" + hexOf(v);
     }
+};
+template <> struct LK<short> {
+    static const bool labelled = true;
+    static std::string name() { return "i16"; }
+    static short of(long long t) { return (short)t; }
+    static std::string show(const short &v) { return std::to_string(v); }
+};
+template <> struct LK<long long> {
+    static const bool labelled = true;
+    static std::string name() { return "i64"; }
+    static long long of(long long t) { return t; }
+    static std::string show(const long long &v) { return std::to_string(v); }
+};
+template <> struct LK<float> {
+    static const bool labelled = true;
+    static std::string name() { return "flt"; }
+    static float of(long long t) { return t / 4.0f; }
+    static std::string show(const float &v) { return showQuarter((double)v); }
 };
 template <> struct LK<Pt> {
     static const bool labelled = true;
